@@ -188,6 +188,9 @@ def _scenarios():
             for rel in (None, "sub/ds"):
                 for parent in (True, False):
                     out.append({"fn": fn, "fmt": fmt, "rel": rel, "parent": parent})
+    for fn in ("folder", "imagefolder"):
+        for fmt, sfmt in (("raw", "zip"), ("zip", "raw"), ("zips", "raw")):
+            out.append({"fn": fn, "fmt": fmt, "rel": "sub/ds", "parent": True, "sibling": sfmt})
     return out
 
 
@@ -216,7 +219,7 @@ def gen_cases(run):
     scns = _scenarios()
     if run.tier == "quick":
         # quick: half of the path variants (plain destination with existing parent; nested relative_path with missing parents)
-        scns = [s for s in scns if (s["rel"] is None) == s["parent"]]
+        scns = [s for s in scns if ((s["rel"] is None) == s["parent"] and not s.get("sibling")) or (s.get("sibling") and s["fn"] == "folder")]
     rng = run.rng
     shard_i, shard_n = run.shard if run.shard else (0, 1)
     idx = 0
@@ -249,7 +252,7 @@ def gen_cases(run):
                 for k2 in range(1, n + 8):
                     if mine():
                         yield {"scn": scn, "kills": [k1, k2], "n": n}
-        n_pairs = 10 if run.tier == "quick" else 160
+        n_pairs = 6 if run.tier == "quick" else 160
         for _ in range(n_pairs):
             spec = {"scn": scn, "kills": [rng.randint(1, n), rng.randint(1, n + 6)], "n": n}
             if rng.random() < 0.35:
@@ -277,7 +280,8 @@ def gen_cases(run):
 
 # ------------------------------------------------------------------------------------------------ case execution
 def _desc(scn, extra=""):
-    return f"copy_{scn['fn']}(fmt={scn['fmt']}, relative_path={scn['rel']!r}, parent_exists={scn['parent']}){extra}"
+    sib = f", sibling split copied before ({scn['sibling']})" if scn.get("sibling") else ""
+    return f"copy_{scn['fn']}(fmt={scn['fmt']}, relative_path={scn['rel']!r}, parent_exists={scn['parent']}{sib}){extra}"
 
 
 def _check_result_truth(run, scn, res, pre_shape, what):
@@ -316,6 +320,17 @@ def run_case(run, spec):
             user = {k: (v.encode("latin1") if v is not None else None) for k, v in spec["user_files"].items()}
         expected = _prepare(root, scn, user=user)
         g, l, rel, dst = _paths(root, scn)
+        sib = None
+        if scn.get("sibling"):
+            # a sibling split ("<rel>_other") of the same local root was copied completely before: it must stay complete and untouched
+            sib_scn = dict(scn, rel=scn["rel"] + "_other", fmt=scn["sibling"], sibling=None)
+            sib_expected = _make_source(root, sib_scn)
+            r0 = _call_in_child(root, sib_scn, workers=0)
+            sib_dst = _paths(root, sib_scn)[3]
+            sib = (sib_scn, sib_expected, sib_dst, _snapshot(sib_dst))
+            if r0["status"] != "returned":
+                run.count("calls_raised")
+                return
         src_before = _snapshot(root / "global")
         run.cover(scn["fn"], scn["fmt"], scn["rel"] is not None, scn["parent"], len(spec["kills"]), "user" in spec, workers)
 
@@ -408,6 +423,16 @@ def run_case(run, spec):
                 return
         else:
             run.count("calls_raised")
+        if sib is not None:
+            run.count("sibling_split_cases")
+            now = _snapshot(sib[2])
+            if now != sib[3] or {a: b for a, b in (now or {}).items() if a not in _NOT_DATA} != sib[1]:
+                run.violation("sibling-copy-damaged", f"{what}: the completed copy of the sibling split {sib[0]['rel']!r} under the same local root was modified / is no longer complete")
+                return
+            res3 = _call_in_child(root, sib[0])
+            if res3["status"] == "returned" and (res3["result"].get("was_copied") or [e for e in res3["events"] if e[2]]):
+                run.violation("completed-copy-touched", f"{what}: a further call for the completed sibling split {sib[0]['rel']!r} copied again ({res3['result']})")
+                return
         if len(run.samples) < 6 and spec["kills"]:
             run.sample({"scenario": _desc(scn), "kills": spec["kills"], "states_after_each_death": shapes, "recovery_result": res["result"],
                         "recovery_ops": len(res["events"])})
